@@ -63,8 +63,28 @@ def regenerate(bindir, coq_dir, cache_dir):
     return True, changed, "ok"
 
 
+def regenerate_reducer(coq_dir):
+    """Gen/ReductionSrc.v from /repo/src/reduction.rs (lib/trans_reduction.py).  When the source is outside the
+    translated idiom the last good model (coq/baseline/ReductionSrc.v) is restored, so that the search for a
+    failing input can still run the implementation against it; the failure is returned as a broken tie."""
+    import trans_reduction
+    dst = os.path.join(coq_dir, "theories", "Gen", "ReductionSrc.v")
+    base = os.path.join(coq_dir, "baseline", "ReductionSrc.v")
+    try:
+        text = trans_reduction.translate(open(os.path.join(SRC, "reduction.rs"), encoding="utf-8").read())
+    except trans_reduction.TransError as e:
+        write_if_changed(dst, open(base, encoding="utf-8").read())
+        return False, False, "src/reduction.rs is outside the translated idiom: %s" % e
+    except Exception as e:  # noqa
+        write_if_changed(dst, open(base, encoding="utf-8").read())
+        return False, False, "translator crashed on src/reduction.rs: %r" % e
+    changed = write_if_changed(dst, text)
+    return True, changed, "ok"
+
+
 if __name__ == "__main__":
     import sys
     root = os.path.dirname(os.path.dirname(os.path.abspath(__file__)))
+    print(regenerate_reducer(os.path.join(root, "coq")))
     print(regenerate(sys.argv[1] if len(sys.argv) > 1 else os.path.join(root, ".cache/cargo-target/release"),
                      os.path.join(root, "coq"), os.path.join(root, ".cache")))
